@@ -49,6 +49,7 @@ static void do_op(int t, const char* op) {
 int main(int argc, char** argv) {
   if (argc < 3) return 2;
   vh_parse(argv[2]);
+  VH_DIRTY(stk);
   mpmc_stack_init(&stk);
   char note[256] = "init stack";
   char* dup = strdup(argv[1]);
